@@ -82,8 +82,10 @@ Transmit ==
   /\ \E gc \in (IF AllowGc THEN BOOLEAN ELSE {FALSE}) :
        LET r == MTx(Cf, m, gc, FALSE)
            mo1 == MonEv(mon, r.m.ev)
+           offv == r.m.ev.e = "Offline" /\ mon[r.m.ev.p].ans = "pos"     \* C08.offline: never right after an accepted reply
        IN /\ m' = r.m
-          /\ IF r.tx.svc \in {"none", "gc"} THEN /\ out' = NoTx /\ mon' = mo1 /\ bad' = (IF r.tx.svc = "fuel" THEN "fuel" ELSE "none")
+          /\ IF offv THEN /\ out' = NoTx /\ mon' = mo1 /\ bad' = "C08.offline"
+             ELSE IF r.tx.svc \in {"none", "gc"} THEN /\ out' = NoTx /\ mon' = mo1 /\ bad' = (IF r.tx.svc = "fuel" THEN "fuel" ELSE "none")
              ELSE IF r.tx.svc = "fuel" THEN /\ out' = NoTx /\ mon' = mo1 /\ bad' = "fuel"
              ELSE LET q == r.tx  x == MonReq(mo1, q)
                       ord == m.cyc # -1 /\ q.p < m.cyc + 1        \* slot order inside a cycle (C14)
